@@ -385,6 +385,45 @@ fn check_terms(f: &Facts, stats: &mut Stats) -> CheckResult {
             let _ = ids;
         }
     }
+    // ---- the two terms may belong to different ontologies: the id-level queries are still the set
+    // algebra of their two ancestor sets (second ontology: the same terms, every other link dropped)
+    let mut f2 = f.clone();
+    let mut k = 0;
+    f2.edges.retain(|_| {
+        k += 1;
+        k % 2 == 0
+    });
+    if f2.edges.len() != f.edges.len() {
+        let ont2 = match via_builder(&f2, Finish::Minimal) {
+            Ok(o) => o,
+            Err(e) => return fail("construct/builder", e),
+        };
+        let m2 = Model::new(&f2);
+        for a in &m.ids {
+            let ta = ont.hpo(*a).unwrap();
+            for b in &m2.ids {
+                let tb = ont2.hpo(*b).unwrap();
+                stats.eval(4);
+                let aa = &m.anc[m.i(*a)];
+                let ab = &m2.anc[m2.i(*b)];
+                let common: BTreeSet<u32> = aa.intersection(ab).copied().collect();
+                let union: BTreeSet<u32> = aa.union(ab).copied().collect();
+                let all_common: BTreeSet<u32> = m.anc_self(*a).intersection(&m2.anc_self(*b)).copied().collect();
+                let r = guarded(|| -> CheckResult {
+                    well_formed(&ta.common_ancestor_ids(&tb), &common, "common_ancestor_ids(other-ontology)")?;
+                    well_formed(&ta.union_ancestor_ids(&tb), &union, "union_ancestor_ids(other-ontology)")?;
+                    well_formed(&ta.all_common_ancestor_ids(&tb), &all_common, "all_common_ancestor_ids(other-ontology)")?;
+                    well_formed(&ta.all_union_ancestor_ids(&tb), &union, "all_union_ancestor_ids(other-ontology)")?;
+                    Ok(())
+                });
+                match r {
+                    Ok(r) => r?,
+                    Err(p) => return fail("ancestors/panic", format!("ancestor query on ({a},{b}) across two ontologies panicked: {p}")),
+                }
+            }
+        }
+        stats.label("terms:pairs-across-two-ontologies");
+    }
     if m.has_diamond() {
         stats.label("terms:diamond");
         stats.nontrivial(f.canonical_hash());
@@ -535,7 +574,7 @@ impl Property for C12 {
         }
     }
     fn required_labels(&self, _tier: Tier) -> Vec<&'static str> {
-        vec!["nontrivial", "ops:len>30", "pair:operand>30", "pair:equal-length", "pair:unbalanced-not-nested", "pair:disjoint", "pair:nested", "pair:equal", "pair:empty-operand", "terms:diamond", "group>255-ids", "group>65535-ids", "pair:few-ids-vs-65+-partly-contained"]
+        vec!["nontrivial", "ops:len>30", "pair:operand>30", "pair:equal-length", "pair:unbalanced-not-nested", "pair:disjoint", "pair:nested", "pair:equal", "pair:empty-operand", "terms:diamond", "group>255-ids", "group>65535-ids", "pair:few-ids-vs-65+-partly-contained", "terms:pairs-across-two-ontologies"]
     }
     fn run_generated(&self, tier: Tier, seed: u64, n: u64, stats: &mut Stats) -> Option<(Value, Failure)> {
         run_typed(strategy(tier), seed, n, stats, check)
